@@ -29,7 +29,8 @@ def sh(cmd, **kw):
 
 
 def one(d, seeds, tier, checks):
-  name = '-'.join(os.path.abspath(d).split(os.sep)[-2:]) if os.path.basename(d) in 'ABCDEFGH' else os.path.basename(d.rstrip('/'))
+  base = os.path.basename(d.rstrip('/'))
+  name = '-'.join(os.path.abspath(d).split(os.sep)[-2:]) if re.fullmatch(r'[A-Z]', base) else base
   prop = re.search(r'C\d\d', os.path.abspath(d)).group(0)
   wt = tempfile.mkdtemp(prefix='seedmx-')
   os.rmdir(wt)
